@@ -7,6 +7,12 @@
 // with an in-memory RoundTripper. The oracle (ref_test.go) is written from the
 // property text and shares no code with hookaido.
 //
+// Besides the case sweeps (gen_test.go, unicode_test.go: the header value /
+// payload alphabet by Unicode general category and plane) there is the family
+// "messages travel through a bounded queue" (bounded_test.go): every operation
+// sequence up to a length bound on queues with queue_limits, where enqueues are
+// refused after the store started to evict.
+//
 // The enumeration is split over shard processes (runner.RunShards): the SQLite
 // driver does not scale over goroutines of one process.
 package c07
